@@ -859,6 +859,15 @@ class Terminal:
                 self.mbx_in_off, "HHBB", data=self.mbx_in_sz - 6)
         return MBXType(type & 0xf), data[:dlen]
 
+    async def mbx_recv_coe(self):
+        """receive the next CoE message, skipping any other mail"""
+        while True:
+            type, data = await self.mbx_recv()
+            if type is MBXType.COE:
+                return data
+            logging.warning(f"expected CoE package, got {type}, "
+                            f"for terminal {self.name}")
+
     async def coe_request(self, coecmd, odcmd, *args, **kwargs):
         async with self.mbx_lock:
             await self.mbx_send(MBXType.COE, "HBxH", coecmd.value << 12,
@@ -958,10 +967,7 @@ class Terminal:
                         MBXType.COE, "HBHB4s", CoECmd.SDOREQ.value << 12,
                         ODCmd.DOWN_EXP.value | (((4 - len(data)) << 2) & 0xc),
                         index, subindex, data)
-                type, data = await self.mbx_recv()
-            if type is not MBXType.COE:
-                raise EtherCatError(f"expected CoE, got {type}, {data} "
-                                    f"{odata} {index:x}:{subindex:x}")
+                data = await self.mbx_recv_coe()
             coecmd, sdocmd, idx, subidx = unpack("<HBHB", data[:6])
             if idx != index or subindex != subidx:
                 raise EtherCatError(f"requested index {index:x}:{subindex:x}, "
@@ -978,9 +984,7 @@ class Terminal:
                         else ODCmd.DOWN_INIT.value,
                         index, 1 if subindex is None else subindex,
                         data=data[:stop])
-                type, data = await self.mbx_recv()
-                if type is not MBXType.COE:
-                    raise EtherCatError(f"expected CoE, got {type}")
+                data = await self.mbx_recv_coe()
                 coecmd, sdocmd, idx, subidx = unpack("<HBHB", data[:6])
                 if coecmd >> 12 != CoECmd.SDORES.value:
                     raise EtherCatError(f"expected CoE SDORES, got {coecmd>>12:x}")
@@ -1001,9 +1005,7 @@ class Terminal:
                                 MBXType.COE, "HBHB4x", CoECmd.SDOREQ.value << 12,
                                 cmd + toggle, index,
                                 1 if subindex is None else subindex, data=d)
-                        type, data = await self.mbx_recv()
-                        if type is not MBXType.COE:
-                            raise EtherCatError(f"expected CoE, got {type}")
+                        data = await self.mbx_recv_coe()
                         coecmd, sdocmd, idx, subidx = unpack("<HBHB", data[:6])
                         if coecmd >> 12 != CoECmd.SDORES.value:
                             raise EtherCatError(f"expected CoE SDORES")
